@@ -32,9 +32,11 @@ example : pyEq .utc (.offset "X" 0) false = true ∧ pyEq (.offset "X" 0) .utc f
 example : pyEq (.loc 0 0 false "UTC") .utc false = true ∧ pyEq .utc (.loc 0 0 false "UTC") false = true := by decide
 example : pyEq (.file 1) .utc false = false ∧ pyEq (.file 1) (.file 1) false = true := by decide
 
-/-- copies and unpickled zones (rebuilt from the recorded state) are equal to the original -/
-theorem copy_equal (z : Zone) : pyEq (reconstruct z) z false = true ∧ pyEq z (reconstruct z) false = true := by
-  simp [reconstruct, eq_refl]
+/- Copies and pickles (`copy.copy`, `copy.deepcopy`, `pickle` protocols 0..5) are NOT modelled: there is
+no model of `__reduce__` / `__reduce_ex__` / copyreg here, hence no theorem about them.  That part of
+the property is checked on the implementation only (oracle `zone_laws`: every zone kind, equal to the
+original and identical utcoffset/dst/tzname/fromutc on a grid).  What the equality table does give is
+`eq_refl … false`: a DISTINCT object whose compared attributes are equal is `==` to the original. -/
 
 /-- equal fixed-offset zones (tzutc, tzoffset, tzlocal without DST) have the same UTC offset.
 Full statement `pyEq a b s → ∀ t, utcoffset a t = utcoffset b t` for tzfile / tzrange / tzstr needs the
@@ -79,6 +81,14 @@ theorem unique_live_lru (h : Reachable .lru res (initState cap scripts) s)
   rw [h0] at e1 e2
   exact hI.gi.heldUniq (by decide) r hr r' hr' hkey (by omega)
 
+/-- non-vacuity: a reachable state (two threads, one key, drops and a collection in between) in
+which two references to one key are held — and they are the same id -/
+example :
+    let ls : List Label := [.thr 0, .thr 0, .thr 0, .thr 0, .thr 0, .thr 1, .thr 0, .thr 0, .thr 0, .thr 0, .thr 0, .thr 0,
+                            .thr 1, .thr 1, .thr 1, .thr 1, .thr 1, .thr 1, .thr 1, .thr 1]
+    let s := ls.foldl (fun s l => (step .lru (fun _ => .zone) s l).getD s) (initState 1 [[.call 7], [.call 7]])
+    s.g.held.map (fun r => (r.key, r.id, r.owner)) = [(7, 0, 0), (7, 0, 1)] ∧ s.g.strong = [(7, 0)] := by decide
+
 /-- the negation at the excluded class, in the model: `a = gettz(k0); cache_clear(); b = gettz(k0)`
 with `a` still held gives two live ids for `k0` -/
 example :
@@ -107,21 +117,25 @@ theorem no_half_built (h : Reachable kd res (initState cap scripts) s) {k : Key}
     (hw : s.g.weak k = some i) : i ∈ s.g.inited :=
   (reachable_inv (init_inv cap scripts) h).gi.weakInited k i hw
 
-/-- `instance` / `nocache` never touch the maps, the lock or callers' references, and the object
-they build is new: its id is none of the ids in the weak map, the strong cache, callers' hands,
-or any thread's local variables -/
-theorem fresh_constructors (h : Reachable kd res (initState cap scripts) s)
+/-- FULL STATEMENT (false on the code for two classes of gettz names, see `shared_constructor`):
+`instance` / `nocache` always return a new object.
+PROVED: they never touch the weak map, the strong cache, its size, the lock, callers' references,
+the epoch or the singleton slot — for every key; and for every key that does not resolve to a
+shared object (all tzoffset / tzstr keys; gettz names resolving to a file, a TZ string, tzlocal)
+the object they build is new: its id is none of the ids in the weak map, the strong cache, callers'
+hands, or any thread's local variables. -/
+theorem fresh_constructors_partial (h : Reachable kd res (initState cap scripts) s)
     {t : Tid} {th th' : Thread} {g' : Glob} (hth : s.ths[t]? = some th)
     (hpc : th.pc = .fAlloc ∨ th.pc = .fInit ∨ th.pc = .fRet) (hs : tstep kd res t s.g th = some (g', th')) :
     (g'.weak = s.g.weak ∧ g'.strong = s.g.strong ∧ g'.cap = s.g.cap ∧ g'.lock = s.g.lock ∧
       g'.held = s.g.held ∧ g'.epoch = s.g.epoch ∧ g'.single = s.g.single) ∧
-    (th.pc = .fAlloc → ∀ i, th'.tmp = some i →
+    (th.pc = .fAlloc → (kd = .gettz → (res th.key).slot? = none) → ∀ i, th'.tmp = some i →
       (∀ k, s.g.weak k ≠ some i) ∧ (∀ e ∈ s.g.strong, e.2 ≠ i) ∧ (∀ r ∈ s.g.held, r.id ≠ i) ∧
       (∀ (t2 : Tid) (th2 : Thread), s.ths[t2]? = some th2 → th2.inst ≠ some i ∧ th2.tmp ≠ some i ∧ th2.seen ≠ some i)) := by
   have hI := reachable_inv (init_inv (kd := kd) (res := res) cap scripts) h
   refine ⟨fresh_frame hpc hs, ?_⟩
-  intro hA i hi
-  rcases fresh_alloc hA hs with h0 | h0
+  intro hA hns i hi
+  rcases fresh_alloc hA hns hs with h0 | h0
   · rw [h0] at hi; cases hi
   · rw [h0] at hi; cases hi
     refine ⟨?_, ?_, ?_, ?_⟩
@@ -132,6 +146,28 @@ theorem fresh_constructors (h : Reachable kd res (initState cap scripts) s)
       exact ⟨fun hk => Nat.lt_irrefl _ ((hI.ti t2 th2 h2).instLt _ hk),
              fun hk => Nat.lt_irrefl _ ((hI.ti t2 th2 h2).tmpLt _ hk),
              fun hk => Nat.lt_irrefl _ ((hI.ti t2 th2 h2).seenLt _ hk)⟩
+
+/-- the excluded classes, stated positively: for a gettz name that resolves to an existing shared
+object — slot 0 = the module constant `tz.UTC` (`GMT` / `UTC` without a file: tzutc() IS one object by
+the property itself), the other slots = the entries of the vendored ZoneInfoFile — `nocache` returns
+that very object (the same for every name of the slot, e.g. `nocache('UTC') is nocache('GMT')`) and
+changes nothing; the shared object is constructed and immortal (a GC root) -/
+theorem shared_constructor (h : Reachable .gettz res (initState cap scripts) s)
+    {t : Tid} {th th' : Thread} {g' : Glob} {sl : Nat} {i : Id} (hpc : th.pc = .fAlloc)
+    (hsl : res th.key = .shared sl) (hl : s.g.shared.lookup sl = some i)
+    (hs : tstep .gettz res t s.g th = some (g', th')) :
+    th'.tmp = some i ∧ g' = s.g ∧ i ∈ s.g.inited := by
+  have hI := reachable_inv (init_inv (kd := .gettz) (res := res) cap scripts) h
+  obtain ⟨h1, _, h3⟩ := shared_alloc hpc hsl hl hs
+  exact ⟨h1, h3, hI.gi.sharedInited _ (lookup_mem hl)⟩
+
+/-- in the model: `nocache('UTC')`, then `nocache('GMT')` (both slot 0) return the same id; `nocache`
+of a file name returns a new one each time -/
+example :
+    let res : Key → Res := fun k => if k < 2 then .shared 0 else .zone
+    let s := (List.replicate 4 (0 : Nat)).foldl (fun s _ => (runOp .gettz res 0 100 s).getD s)
+              (initState 8 [[.fresh 0, .fresh 1, .fresh 2, .fresh 2]])
+    s.g.log.map (fun e => e.val) = [some 0, some 0, some 1, some 2] := by decide
 
 /-- `set_cache_size` only affects retention: every statement of it leaves the weak map, callers'
 references, the epoch and the set of objects unchanged (it changes the strong cache, its size, the lock) -/
@@ -176,9 +212,41 @@ theorem lock_discipline (h : Reachable kd res (initState cap scripts) s) :
   refine ⟨s.ths[t], by simp [hlt], ?_⟩
   exact ((hI.ti t s.ths[t] (by simp [hlt])).lockIff).mpr hl
 
-/-- no deadlock, no exception: in every reachable state either every thread has finished its
-script or some thread can execute its next statement (a statement that would raise is a disabled
-step in the model, so this also says no modelled statement raises) -/
+/-- no statement of the model gets stuck: in every reachable state, every thread that has not finished
+its script can execute its next statement, unless that statement is a lock acquisition and the lock
+is taken.  In the model a statement whose Python original would raise an exception the code does not
+expect (`popitem` on an empty OrderedDict: KeyError; a local that must be bound being None) is a
+DISABLED step, so this is the audited form of "no modelled statement raises"; the exceptions the code
+does let through — a constructor raising under the lock (`Res.raises`) — are ordinary steps
+(`exception_releases_lock`). -/
+theorem no_raising_statement (h : Reachable kd res (initState cap scripts) s)
+    {t : Tid} {th : Thread} (hth : s.ths[t]? = some th) (hf : th.finished = false) :
+    (isAcq th.pc = true ∧ s.g.lock ≠ none) ∨ (tstep kd res t s.g th).isSome = true :=
+  tstep_enabled ((reachable_inv (init_inv (kd := kd) (res := res) cap scripts) h).ti t th hth) hf
+
+/-- exceptional exit of the critical section: when the constructor raises under the lock
+(`tzoffset('A', 'x')`, `tzstr('1')`, `gettz(b'x')`), the next statement of that thread is the `with`
+exit: it releases the lock, records the exception as the outcome of the call, touches neither map
+nor callers' references, and the thread is back at the top of its script — so `lock_discipline`,
+`no_deadlock` and `always_returns` cover the raising paths too -/
+theorem exception_releases_lock {t : Tid} {g g' : Glob} {th th' : Thread} (hpc : th.pc = .xRelX)
+    (hs : tstep kd res t g th = some (g', th')) :
+    g'.lock = none ∧ th'.pc = .idle ∧ g'.weak = g.weak ∧ g'.strong = g.strong ∧ g'.held = g.held ∧
+    g'.log = g.log ++ [{ tid := t, key := th.key, val := none, cached := false, exc := true }] := by
+  simp only [tstep, hpc, Option.some.injEq, Prod.mk.injEq] at hs
+  obtain ⟨rfl, rfl⟩ := hs
+  simp
+
+/-- in the model: thread 0's constructor raises under the lock while thread 1 waits; thread 1 then
+gets the lock and its call returns -/
+example :
+    let res : Key → Res := fun k => if k = 0 then .raises else .zone
+    let sched : List Tid := [0, 0, 0, 0, 0, 1, 1, 0, 1, 1, 1, 1, 1, 1, 1, 1, 1, 1, 1]
+    let s := sched.foldl (fun s t => (step .lru res s (.thr t)).getD s) (initState 8 [[.call 0], [.call 1]])
+    s.g.log.map (fun e => (e.tid, e.exc, e.val)) = [(0, true, none), (1, false, some 0)] ∧ s.g.lock = none := by decide
+
+/-- no deadlock: in every reachable state either every thread has finished its script or some
+thread can execute its next statement -/
 theorem no_deadlock (h : Reachable kd res (initState cap scripts) s) :
     (∀ th ∈ s.ths, th.finished = true) ∨ ∃ t, (step kd res s (.thr t)).isSome = true := by
   have hI := reachable_inv (init_inv (kd := kd) (res := res) cap scripts) h
@@ -296,7 +364,8 @@ open Gettz
 
 variable {e : Env}
 
-/-- no name, `''` or `':'` (after `TZ` has been substituted for a missing / empty name): the local
+/-- (definitional: an unfolding of `Gettz.resolve`; a readable restatement of the model, tied to the code
+by `gettz.resolve`, not a deep fact) no name, `''` or `':'` (after `TZ` has been substituted for a missing / empty name): the local
 zone — the unnamed loop over TZFILES; neither TZ strings, nor the vendored database, nor the
 search for a key are consulted -/
 theorem resolve_unnamed {name : Option String}
@@ -304,7 +373,8 @@ theorem resolve_unnamed {name : Option String}
     resolve e name = localLoop e e.tzfiles := by
   rcases h with h | h | h <;> simp [resolve, h]
 
-/-- `gettz()` / `gettz('')` read the TZ variable first: with `TZ` set to a non-empty value other
+/-- (definitional: an unfolding of `Gettz.resolve`; a readable restatement of the model, tied to the code
+by `gettz.resolve`, not a deep fact) `gettz()` / `gettz('')` read the TZ variable first: with `TZ` set to a non-empty value other
 than `:` they resolve exactly like `gettz(TZ)` -/
 theorem resolve_uses_TZ {v : String} (hv : e.tzVar = some v) (h1 : v ≠ "") :
     resolve e none = resolve e (some v) ∧ resolve e (some "") = resolve e (some v) := by
@@ -330,12 +400,14 @@ theorem resolve_local_results {l : List String} {r : Resolution} (h : localLoop 
     r = .localZone ∨ ∃ p, r = .file p ∧ e.isfile p = true ∧ e.load p = .ok :=
   localLoop_ok_cases h
 
-/-- a named request (anything else; one leading `:` is dropped) -/
+/-- (definitional: an unfolding of `Gettz.resolve`; a readable restatement of the model, tied to the code
+by `gettz.resolve`, not a deep fact) a named request (anything else; one leading `:` is dropped) -/
 theorem resolve_named {name : Option String} {s : String} (h : effectiveName e name = some s)
     (h1 : s ≠ "") (h2 : s ≠ ":") : resolve e name = resolveNamed e s := by
   simp [resolve, h, h1, h2]
 
-/-- an absolute path is only ever that file: a loadable file gives `tzfile(path)`, anything that
+/-- (definitional: an unfolding of `Gettz.resolve`; a readable restatement of the model, tied to the code
+by `gettz.resolve`, not a deep fact) an absolute path is only ever that file: a loadable file gives `tzfile(path)`, anything that
 is not a regular file gives `None` — TZPATHS, the vendored database, TZ strings and tzname are not consulted -/
 theorem resolve_absolute {s : String} (ha : isabs (stripColon s) = true) :
     (e.isfile (stripColon s) = true → e.load (stripColon s) = .ok → resolveNamed e s = .ok (.file (stripColon s))) ∧
@@ -355,7 +427,9 @@ theorem resolve_search_path_wins {s p c : String} {pre post : List String}
     resolveNamed e s = .ok (.file c) := by
   simp [resolveNamed, hrel, hpaths, searchLoop_first_wins hpre hc hl]
 
-/-- the candidate of a search directory: the joined path when it is a file, else its underscore spelling -/
+/-- (definitional: an unfolding of `Gettz.resolve`; a readable restatement of the model, tied to the code
+by `gettz.resolve`, not a deep fact) (definitional: an unfolding of `Gettz.resolve`; a readable restatement of the model, tied to the code
+by `gettz.resolve`, not a deep fact) the candidate of a search directory: the joined path when it is a file, else its underscore spelling -/
 theorem candidate_direct {path name : String} (h : e.isfile (join path name) = true) :
     candidate e path name = some (join path name) := by simp [candidate, h]
 
@@ -363,13 +437,15 @@ theorem candidate_underscore {path name : String} (h : e.isfile (join path name)
     (h2 : e.isfile (underscore (join path name)) = true) :
     candidate e path name = some (underscore (join path name)) := by simp [candidate, h, h2]
 
-/-- when no search directory yields a loadable file, the fall-back chain decides -/
+/-- (definitional: an unfolding of `Gettz.resolve`; a readable restatement of the model, tied to the code
+by `gettz.resolve`, not a deep fact) when no search directory yields a loadable file, the fall-back chain decides -/
 theorem resolve_fallthrough {s : String} (hrel : isabs (stripColon s) = false)
     (hall : ∀ q ∈ e.tzpaths, SearchSkip e (stripColon s) q) :
     resolveNamed e s = .ok (fallback e (stripColon s)) := by
   simp [resolveNamed, hrel, searchLoop_all_skipped hall]
 
-/-- the fall-back chain, in order: vendored database; else, for a name containing an ASCII digit,
+/-- (definitional: an unfolding of `Gettz.resolve`; a readable restatement of the model, tied to the code
+by `gettz.resolve`, not a deep fact) the fall-back chain, in order: vendored database; else, for a name containing an ASCII digit,
 `tzstr` if it parses and `None` if it raises ValueError (never GMT/UTC/tzname); else the constant
 UTC for `GMT` / `UTC`; else `tzlocal()` for a name in `time.tzname`; else `None` -/
 theorem fallback_order (n : String) :
@@ -417,13 +493,15 @@ theorem resolve_none_iff {s : String} (h : ∃ r, resolveNamed e s = .ok r) :
     · simp
     · cases hl : e.load (stripColon s) <;> simp
 
-/-- FULL STATEMENT (fails on the code, D-C18-badfile): `nocache` never raises for a `str` name.
+/-- when `nocache` raises for a `str` name.  (The property does not demand that gettz never raises on an
+unreadable file, so this is a description of the code, not a finding; the statement "never raises for
+any name" is false on the code: `gettz('/etc/hostname')` raises ValueError.)
 PROVED: it raises only in two situations, both about an unreadable FILE, never about the name:
 (1) some file handed to `tzfile` raises `struct.error` (TZif magic but truncated / corrupt data: not
 in the handler list `(IOError, OSError, ValueError)`), or (2) the name is an absolute path to an
 existing file that `tzfile` rejects (that call site has no handler at all).  In every other
 environment, for every name — empty, `:`-prefixed, with spaces, `..`, of any length — a result comes back. -/
-theorem resolve_never_raises_partial (name : Option String)
+theorem resolve_raises_only_on_unreadable_file (name : Option String)
     (hS : ∀ p, e.load p ≠ .structError)
     (hA : ∀ s, effectiveName e name = some s → isabs (stripColon s) = true → e.isfile (stripColon s) = true →
             e.load (stripColon s) = .ok) :
@@ -472,7 +550,8 @@ example :
     resolve e (some "A1") = .ok .none ∧ resolve e (some "Vend") = .ok (.vendored "Vend") ∧
     resolve e (some ":") = .ok .localZone := by decide
 
-/-- link to the factory model: `GettzFunc.__call__` stores a result in its maps exactly when a name was
+/-- (definitional: an unfolding of `Gettz.resolve`; a readable restatement of the model, tied to the code
+by `gettz.resolve`, not a deep fact) link to the factory model: `GettzFunc.__call__` stores a result in its maps exactly when a name was
 given and the resolution is neither `None` nor a tzlocal (class 0 = `Res.zone` of Model/Factory.lean,
 1 = `Res.uncached`, 2 = `Res.none`; the factory theorems hold for every assignment of classes to keys) -/
 theorem gettz_caches_exactly (name : Option String) (r : Resolution) :
